@@ -1,10 +1,8 @@
+\* stand-alone exhaustive run of the builder (the harness generates its configurations, see harness/vf/exprs.py):
+\*   java -cp tla2tools.jar:CommunityModules-deps.jar tlc2.TLC -deadlock -config ExprBuilder_d2.cfg MCExprBuilder.tla
 SPECIFICATION Spec
 CONSTANTS
-  MaxNodes = 5
-  MaxOps = 2
-  MaxLeaves = 3
-  Ops <- AllOps
-  LeafSet <- AllLeaves
+  Families <- D2Families
   EmitMin = 1
 INVARIANT ShapeSound
 INVARIANT IxSound
